@@ -7,7 +7,7 @@ import vlib
 
 MOD = "server/Worker.tla"
 TMOD = "server/WorkerTrace.tla"
-VARS = ["ReadyCheckOnce", "RestartAll", "DrainCalls", "GracefulRepliesEarly", "IgnoreTimeout", "ForcedWaits", "LifoQueue", "DrainOnlyAtStop"]
+VARS = ["ReadyCheckOnce", "RestartAll", "DrainCalls", "GracefulRepliesEarly", "IgnoreTimeout", "ForcedWaits", "LifoQueue", "DrainOnlyAtStop", "ErrKeepsPolling"]
 
 
 def read_consts(cfg):
@@ -105,6 +105,31 @@ def replay_and_validate(ctx, scheds, invariants, tag, strict_sample=150):
     return accepted_total, bad, runs, strict_ok, drift
 
 
+def confirm_rejections(ctx, scheds, bad, invariants):
+    """A rejected run is executed again, alone, twice; reported only if the same predicate fails in both re-executions
+    (see srvflow.confirm_rejections)."""
+    out, seen = [], set()
+    for (i, rec, pred) in bad:
+        if (i, pred) in seen:
+            continue
+        seen.add((i, pred))
+        again = 0
+        for k in range(2):
+            _a, bad2, _r, _s, _d = replay_and_validate(ctx, [scheds[i]], invariants, "%s-confirm-%d-%d" % (ctx.prop.lower(), i, k), strict_sample=0)
+            if any(p2 == pred for (_i, _rec, p2) in bad2):
+                again += 1
+        if again == 2:
+            out.append((i, rec, pred))
+        else:
+            vlib.log("rejection of predicate %s on schedule %d (%s) reproduced in %d of 2 re-executions: not reported; first record: %s" % (
+                pred, i, scheds[i].get("origin"), again, json.dumps(rec, separators=(",", ":"))[:6000]))
+            ctx.cov.setdefault("unreproduced_rejections", []).append(
+                {"predicate": pred, "origin": scheds[i].get("origin"), "reproduced": again, "record": rec.get("k")})
+        if len(out) >= 6:
+            break
+    return out
+
+
 def run_check(ctx, *, design, edge_cfgs, negs, invariants, corpus, thorough_design=(), live=(), neg_live=(),
               max_paths_quick=500, max_paths_thorough=8000, nontrivial=None, rule="", tag=None):
     vlib.cargo_build(["vsrv"])
@@ -159,6 +184,7 @@ def run_check(ctx, *, design, edge_cfgs, negs, invariants, corpus, thorough_desi
     ctx.cov["strict_mode_drift"] = ctx.cov.get("strict_mode_drift", 0) + len(drift)
     for (i, rec) in drift[:3]:
         print("DRIFT spec=Worker first-unmatched=%s (schedule from %s)" % (json.dumps(rec)[:300], scheds[i].get("origin")), flush=True)
+    bad = confirm_rejections(ctx, scheds, bad, invariants)
     for (i, rec, pred) in bad:
         ctx.violation("%s:%s" % (pred, rec.get("do")),
                       "predicate %s is false on the observation after step %s (%s) of a schedule from %s" % (
